@@ -245,6 +245,15 @@ def heater(plat, c, l):
             exp = "Heating" if bool(rc < rr) else ("Cooling" if bool(rc > rr) else "Idle")
         sx.check(op == exp, "htr.operation", lambda: f"op={op} expected={exp}")
         sx.check(op in ("Heating", "Cooling", "Idle"), "htr.operation-domain")
+        # a unit command every transmission of which is lost (the set-value callback goes nowhere): the spa
+        # still reports the old unit, so symbol, limits and readings must keep following the block (round 7)
+        if sx.choice("unanswered_unit_command", 2):
+            h.set_temperature_unit("°F" if is_c else "°C")      # the other unit than the one in force
+            sx.check(h.temperature_unit == ("°C" if is_c else "°F"), "htr.unit-symbol-after-unanswered-command",
+                     lambda: f"{h.temperature_unit} with unit C={is_c}")
+            sx.check((h.min_temp, h.max_temp) == ((15, 40) if is_c else (59, 104)), "htr.limits-after-unanswered-command",
+                     lambda: f"{h.min_temp},{h.max_temp} with unit C={is_c}")
+            sx.check_same(h.target_temperature, ref(rt), "htr.target-after-unanswered-command")
         # the unit is then changed on the spa side (keypad / another client): a status update patches TempUnits
         tu = acc["TempUnits"]
         nb = sx.bytes_("new_units_byte", 1)
